@@ -5,6 +5,7 @@ package xmpp
 // bound; PostConnect must run exactly once per established session, a permanent error ends the loop.
 
 import (
+	"net"
 	"context"
 	"errors"
 	"fmt"
@@ -132,7 +133,8 @@ func sleepC13() { time.Sleep(time.Millisecond) }
 // established and dropped abruptly; the first reconnect attempt meets the given fault; afterwards the server is healthy.
 // (graceful: the server first sends its closing stream tag). Exactly one new session (one more PostConnect call) must
 // follow. fault: 0 none, 1 hang-up before the stream opens
-// (transport.Connect fails), 2 hang-up after the stream features (negotiation fails, no closing tag).
+// (transport.Connect fails), 2 hang-up after the stream features (negotiation fails, no closing tag), 4 hang-up
+// between the stream header and the features.
 func c13integration(t *testing.T, fault int, graceful bool) string {
 	var nconn int32
 	sessions := make(chan *ServerConn, 16)
@@ -140,6 +142,12 @@ func c13integration(t *testing.T, fault int, graceful bool) string {
 	mock.Start(t, "127.0.0.1:0", func(t *testing.T, sc *ServerConn) {
 		n := atomic.AddInt32(&nconn, 1)
 		if n == 2 && fault == 1 {
+			sc.connection.Close()
+			return
+		}
+		if n == 2 && fault == 4 {
+			// the stream header, then the connection is cut before the features arrive
+			checkClientOpenStream(t, sc)
 			sc.connection.Close()
 			return
 		}
@@ -217,7 +225,7 @@ func c13integrationAll(t *testing.T) (cases int, fails []string) {
 	var mu sync.Mutex
 	var wg sync.WaitGroup
 	for _, graceful := range []bool{false, true} {
-		for _, f := range []int{0, 1, 2} {
+		for _, f := range []int{0, 1, 2, 4} {
 			cases++
 			wg.Add(1)
 			go func(f int, graceful bool) {
@@ -233,6 +241,77 @@ func c13integrationAll(t *testing.T) (cases int, fails []string) {
 			}(f, graceful)
 		}
 	}
+	cases++
+	wg.Add(1)
+	go func() {
+		defer wg.Done()
+		if m := c13refused(t); m != "" {
+			mu.Lock()
+			fails = append(fails, m)
+			mu.Unlock()
+		}
+	}()
 	wg.Wait()
 	return
+}
+
+// c13refused: the server goes down (the established connection is lost and its port refuses connections for a while),
+// then comes back on the same address: a new session must follow.
+func c13refused(t *testing.T) string {
+	sessions := make(chan *ServerConn, 16)
+	h := func(t *testing.T, sc *ServerConn) {
+		checkClientOpenStream(t, sc)
+		sendStreamFeatures(t, sc)
+		readAuth(t, sc.decoder)
+		sc.connection.Write([]byte("<success xmlns=\"urn:ietf:params:xml:ns:xmpp-sasl\"/>"))
+		checkClientOpenStream(t, sc)
+		sendBindFeature(t, sc)
+		bind(t, sc)
+		sessions <- sc
+	}
+	mock := ServerMock{}
+	mock.Start(t, "127.0.0.1:0", h)
+	if mock.listener == nil {
+		return "scripted server cannot listen"
+	}
+	addr := mock.listener.Addr().String()
+	config := Config{
+		TransportConfiguration: TransportConfiguration{Address: addr},
+		Jid:                    "test@localhost",
+		Credential:             Password("test"),
+		Insecure:               true,
+		ConnectTimeout:         1,
+	}
+	client, err := NewClient(&config, NewRouter(), func(error) {})
+	if err != nil {
+		mock.Stop()
+		return "cannot create client: " + err.Error()
+	}
+	var postConnect int32
+	sman := NewStreamManager(client, func(Sender) { atomic.AddInt32(&postConnect, 1) })
+	go sman.Run()
+	select {
+	case <-sessions:
+	case <-time.After(10 * time.Second):
+		mock.Stop()
+		return "first session never established"
+	}
+	for i := 0; i < 2000 && atomic.LoadInt32(&postConnect) < 1; i++ {
+		sleepC13()
+	}
+	mock.Stop() // connection lost, port closed: connection attempts are refused
+	time.Sleep(300 * time.Millisecond)
+	l2, err := net.Listen("tcp", addr)
+	if err != nil {
+		return "" // the port was taken meanwhile: nothing can be concluded
+	}
+	mock2 := ServerMock{t: t, handler: h, listener: l2, done: make(chan struct{})}
+	go mock2.loop()
+	defer mock2.Stop()
+	select {
+	case <-sessions:
+	case <-time.After(15 * time.Second):
+		return fmt.Sprintf("server down for 300 ms (connection attempts refused), then back on the same address: no session re-established (PostConnect ran %d times)", atomic.LoadInt32(&postConnect))
+	}
+	return ""
 }
